@@ -223,6 +223,26 @@ Definition be_ack (ecn : bool) : parser frame :=
        if ecn then (a <- be_varint ;; b <- be_varint ;; c <- be_varint ;; ret (Ack l d fr rs (Some (a, b, c))))
        else ret (Ack l d fr rs None)) bs')) bs.
 
+(* AckFrame::is_valid (RFC 9000 19.3.1, checked by complete_frame through nom's `verify`): no packet
+   number computed from the ranges is negative.  One arm per checked subtraction
+   (`checked_sub(gap)`, `checked_sub(2)`, `checked_sub(range)`). *)
+Fixpoint ack_ranges_valid (smallest : Z) (rs : list (Z * Z)) : bool :=
+  match rs with
+  | [] => true
+  | (g, a) :: r =>
+      if smallest <? g then false
+      else if smallest - g <? 2 then false
+      else if smallest - g - 2 <? a then false
+      else ack_ranges_valid (smallest - g - 2 - a) r
+  end.
+Definition ack_valid (l fr : Z) (rs : list (Z * Z)) : bool :=
+  if l <? fr then false else ack_ranges_valid (l - fr) rs.
+Definition ack_verify (f : frame) : parser frame :=
+  match f with
+  | Ack l _ fr rs _ => if ack_valid l fr rs then ret f else (fun _ => Bad EK_Verify)
+  | _ => ret f
+  end.
+
 Definition be_close_app : parser frame :=
   c <- be_varint ;; n <- be_varint ;; r <- take_c n ;; ret (CloseApp c r).
 
@@ -259,7 +279,7 @@ Definition be_body (t : ftype) : parser frame :=
   | TPadding => ret Padding
   | TPing => ret Ping
   | THandshakeDone => ret HandshakeDone
-  | TAck ecn => be_ack ecn
+  | TAck ecn => f <- be_ack ecn ;; ack_verify f
   | TResetStream => s <- be_varint ;; e <- be_varint ;; f <- be_varint ;; ret (ResetStream s e f)
   | TStopSending => s <- be_varint ;; e <- be_varint ;; ret (StopSending s e)
   | TCrypto =>
